@@ -59,6 +59,11 @@ def observations(G, ex, st, ctx, offsets):
         obs['mmio[%#05x]' % a] = r[1]
     for n_, (rid, off, sz) in c12.field_locations(G).items():
         obs['field.' + n_] = ex.load(st, Ptr(rid, off), sz)
+    # container-typed hidden state: the AHBM burst queues and the audio transmit queues (std::queue), observed by size
+    for ch in range(3):
+        obs['field.ahbm.ch%d.burst_queue.size' % ch] = ex.call(st.fork(), '@ti_ahbm_qsize', [ctx['impl'], ch])[1]
+    for i in range(2):
+        obs['field.btdmp%d.transmit_queue.size' % i] = ex.call(st.fork(), '@ti_btdmp_qsize', [ctx['impl'], i])[1]
     obs['dsp memory'] = st.mem[ctx['mem']].arr
     return obs
 
@@ -153,6 +158,12 @@ def job_reset(lo, hi, tier, seed):
                 ex.store(st, Ptr(pr.r, pr.o + poff[2] + off + i * stride), sz, v)
                 if sz == 1:
                     st.pc.append(z3.ULE(v, 1))
+    # non-empty queues before the Reset (an interrupted burst / unsent audio words), built directly
+    for ch, k in ((0, 1), (1, 3)):
+        for j in range(k):
+            ex.call(st, '@ti_ahbm_push', [ctx['impl'], ch, z3.BitVec('pre.ahbm.q%d.%d' % (ch, j), 32)])
+    for j in range(2):
+        ex.call(st, '@ti_btdmp_push', [ctx['impl'], 0, z3.BitVec('pre.btdmp.q0.%d' % j, 16)])
     st.mem[ctx['mem']] = st.mem[ctx['mem']].copy()
     st.mem[ctx['mem']].arr = z3.Array('pre.dspmem', z3.BitVecSort(64), z3.BitVecSort(8))
     ex.call(st, '@ti_reset', [ctx['impl']])
@@ -233,7 +244,7 @@ def run(tier, seed):
     ck.assumptions += ['operator new / the Impl storage return memory whose bytes are unconstrained symbolic values until written (heap fill patterns = symbolic variables)',
                        'observations: every RegisterState field, the interrupt latches, every MMIO read (0x800 offsets, each on a forked state), every data field of the timers / MIU / ICU / DMA / AHBM / BTDMP / APBP objects (hidden state such as a timer counter is observed later through Run), the 0x80000-byte DSP memory',
                        'the 65536-entry decoder table is a pure function of decoder.h (C02) and is not part of the state; callbacks are installed identically in both runs',
-                       'Reset-equals-fresh: pre-state = constructed graph with all peripheral data fields, cell backing words, processor registers, interpreter latches and memory replaced by fresh variables']
+                       'Reset-equals-fresh: pre-state = constructed graph with all peripheral data fields, cell backing words, processor registers, interpreter latches and memory replaced by fresh variables, plus 1 and 3 words queued in AHBM burst queues 0/1 and 2 words in audio transmit queue 0 (queues are observed by size)']
     ck.bounds += ['one constructor run, one Reset; all 0x800 MMIO offsets; no value bound']
     step = 256
     jobs = []
